@@ -920,7 +920,349 @@ class ScaleC(ModelObj):
         raise Unsupported("scale index")
 
 
+# ------------------------------------------------------------------ _get_iou_dict / add_iou
+GID = "funtracks.candidate_graph.iou._get_iou_dict"
+AIO = "funtracks.candidate_graph.iou.add_iou"
+OVc = z3.Function("masks_overlap", Int, Int, Int, Int, Bool)      # (frame1, label1, frame2, label2)
+IOc = z3.Function("mask_iou", Int, Int, Int, Int, Val)
+
+
+class Expanded(ModelObj):
+    """np.expand_dims(segmentation, 0): one hypothesis"""
+
+    type_names = ("ndarray",)
+
+    def __init__(self, V):
+        self.V = V
+
+    def attr_shape(self, I):
+        return (1, Sym(self.V.nfr))
+
+    def m_getitem(self, I, h):
+        if h != 0:
+            raise Unsupported("hypothesis index")
+        return self.V
+
+
+def expand_dims_ext(I, args, kw):
+    if isinstance(args[0], SegVideo) and args[1] == 0:
+        return Expanded(args[0])
+    raise Unsupported("np.expand_dims arguments")
+
+
+class ComputeIousC(Contract):
+    """assumed contract of candidate_graph.iou._compute_ious on two frames: every overlapping pair of non-zero labels once, with its IoU"""
+
+    qualname = "funtracks.candidate_graph.iou._compute_ious"
+
+    def apply(self, I, args, kw):
+        f1, f2 = args
+        if not (isinstance(f1, SegFrame) and isinstance(f2, SegFrame) and f1.V is f2.V):
+            raise Unsupported("_compute_ious arguments")
+        ctx = I.ctx
+        t1, t2 = f1.t, f2.t
+        n = ctx.fresh("n_overlaps", Int)
+        p1, p2 = ctx.fresh_fun("ov_src", Int, Int), ctx.fresh_fun("ov_dst", Int, Int)
+        pos = ctx.fresh_fun("ov_pos", Int, Int, Int)
+        ctx.assume(n >= 0)
+        ctx.assume(forall([j_], IMP(AND(j_ >= 0, j_ < n), AND(OVc(t1, p1(j_), t2, p2(j_)), pos(p1(j_), p2(j_)) == j_))), "ious")
+        ctx.assume(forall([a_, b_], IMP(OVc(t1, a_, t2, b_), AND(pos(a_, b_) >= 0, pos(a_, b_) < n, p1(pos(a_, b_)) == a_, p2(pos(a_, b_)) == b_))), "ious")
+        out = SymList(n, lambda j: (Sym(p1(j)), Sym(p2(j)), Sym(IOc(t1, p1(j), t2, p2(j)))))
+        out.pos, out.t1, out.t2 = pos, t1, t2
+        return out
+
+
+class NestedIou(ModelObj):
+    """dict label1 -> dict label2 -> iou"""
+
+    type_names = ("dict",)
+
+    def __init__(self, ctx):
+        self.ctx = ctx
+        self.fresh()
+
+    def fresh(self):
+        ctx = self.ctx
+        self.has1 = ctx.fresh_fun("iou_has1", Int, Bool)
+        self.has2 = ctx.fresh_fun("iou_has2", Int, Int, Bool)
+        self.val = ctx.fresh_fun("iou_val", Int, Int, Val)
+
+    @staticmethod
+    def empty(ctx):
+        d = NestedIou(ctx)
+        ctx.assume(forall([a_], z3.Not(d.has1(a_))))
+        ctx.assume(forall([a_, b_], z3.Not(d.has2(a_, b_))))
+        return d
+
+    def m_contains(self, I, k):
+        return Sym(self.has1(to_z3(k, Int)))
+
+    def m_setitem(self, I, k, v):
+        from pyvc.values import AssocDict
+        if not ((isinstance(v, dict) and not v) or (isinstance(v, AssocDict) and not v.items)):
+            raise Unsupported("only `d[label] = {}` is modelled")
+        ke = to_z3(k, Int)
+        h1, h2 = self.has1, self.has2
+        self.has1, self.has2 = self.ctx.fresh_fun("iou_has1", Int, Bool), self.ctx.fresh_fun("iou_has2", Int, Int, Bool)
+        self.ctx.assume(forall([a_], self.has1(a_) == OR(h1(a_), a_ == ke)))
+        self.ctx.assume(forall([a_, b_], self.has2(a_, b_) == AND(h2(a_, b_), a_ != ke)))
+
+    def m_getitem(self, I, k):
+        ke = to_z3(k, Int)
+        if not I.ctx.branch(self.has1(ke), "label is a key"):
+            raise PyRaise(BuiltinExc("KeyError", (k,)))
+        return InnerIou(self, ke)
+
+    def do_get(self, I, k, default=None):
+        return InnerIou(self, to_z3(k, Int), maybe_missing=True)
+
+
+class InnerIou(ModelObj):
+    type_names = ("dict",)
+
+    def __init__(self, d, k, maybe_missing=False):
+        self.d, self.k, self.maybe = d, k, maybe_missing
+
+    def m_setitem(self, I, k2, v):
+        d, ctx = self.d, self.d.ctx
+        k1, k2e, ve = self.k, to_z3(k2, Int), to_z3(v, Val)
+        h2, vl = d.has2, d.val
+        d.has2, d.val = ctx.fresh_fun("iou_has2", Int, Int, Bool), ctx.fresh_fun("iou_val", Int, Int, Val)
+        ctx.assume(forall([a_, b_], d.has2(a_, b_) == OR(h2(a_, b_), AND(a_ == k1, b_ == k2e))))
+        ctx.assume(forall([a_, b_], d.val(a_, b_) == z3.If(AND(a_ == k1, b_ == k2e), ve, vl(a_, b_))))
+
+    def do_get(self, I, k2, default=None):
+        d, k2e = self.d, to_z3(k2, Int)
+        present = AND(d.has1(self.k), d.has2(self.k, k2e))
+        return Sym(z3.If(present, d.val(self.k, k2e), to_z3(default, Val)))
+
+
+def iou_dict_clauses(V, d, F, t=None, upto=None, pos=None):
+    """pairs of frames (f, f+1) with f < F are recorded (plus the first `upto` pairs of frame t)"""
+    lf = V.label_frame
+    inframes = lambda a: AND(lf(a) >= 0, lf(a) < F, lf(a) < V.nfr - 1)
+    rec = lambda a, b: AND(inframes(a), OVc(lf(a), a, lf(a) + 1, b))
+    if t is not None:
+        rec0 = rec
+        rec = lambda a, b: OR(rec0(a, b), AND(lf(a) == t, OVc(t, a, t + 1, b), pos(a, b) < upto))
+    return [
+        ("recorded-pairs-are-the-overlapping-pairs-of-consecutive-processed-frames", forall([a_, b_], d.has2(a_, b_) == rec(a_, b_))),
+        ("recorded-value-is-the-pair's-iou", forall([a_, b_], IMP(d.has2(a_, b_), d.val(a_, b_) == IOc(lf(a_), a_, lf(a_) + 1, b_)))),
+        ("inner-dicts-exist", forall([a_, b_], IMP(d.has2(a_, b_), d.has1(a_)))),
+    ]
+
+
+class IouFramesLoop(LoopSpec):
+    props = ("C18",)
+
+    def __init__(self, V):
+        self.V = V
+
+    def enter(self, I, fr, it):
+        if not isinstance(fr.env["iou_dict"], NestedIou):
+            fr.env["iou_dict"] = NestedIou.empty(I.ctx)
+
+    def havoc(self, I, fr, it, i, assigned):
+        for nm in ("frame", "hypo1", "hypo2", "seg1", "seg2", "ious", "label1", "label2", "iou"):
+            fr.env.pop(nm, None)
+        fr.env["iou_dict"].fresh()
+
+    def inv(self, I, fr, it, F):
+        return iou_dict_clauses(self.V, fr.env["iou_dict"], F)
+
+
+class IouPairsLoop(LoopSpec):
+    props = ("C18",)
+
+    def __init__(self, V):
+        self.V = V
+
+    def enter(self, I, fr, it):
+        self.t = it.t1
+
+    def havoc(self, I, fr, it, i, assigned):
+        for nm in ("label1", "label2", "iou"):
+            fr.env.pop(nm, None)
+        fr.env["iou_dict"].fresh()
+
+    def inv(self, I, fr, it, j):
+        return iou_dict_clauses(self.V, fr.env["iou_dict"], self.t, t=self.t, upto=j, pos=it.pos)
+
+
+def label_frame_axioms(ctx, V):
+    """labels are unique across time (documented precondition): label_frame(a) is the frame of label a; overlaps concern labels of their frames"""
+    V.label_frame = ctx.fresh_fun("label_frame", Int, Int)
+    ctx.assume(forall([t_, a_], IMP(AND(t_ >= 0, V.is_label(t_, a_)), V.label_frame(a_) == t_)), "pre.labels-unique-across-time")
+    ctx.assume(forall([t_, f_, a_, b_], IMP(OVc(t_, a_, f_, b_), AND(V.is_label(t_, a_), V.is_label(f_, b_)))), "overlap.labels")
+
+
+class GetIouDict(Contract):
+    qualname = GID
+    props = ("C18",)
+
+    def run(self, I, cfg):
+        ctx = I.ctx
+        V = SegVideo(ctx)
+        label_frame_axioms(ctx, V)
+        I.ext["numpy.expand_dims"] = expand_dims_ext
+        ctx.contracts[ComputeIousC.qualname] = ComputeIousC()
+        ctx.loopspecs[(GID, 0)] = IouFramesLoop(V)
+        ctx.loopspecs[(GID, 2)] = IouPairsLoop(V)
+        out = call_real(I, GID, [V], {"multiseg": False})
+        q = "_get_iou_dict"
+        if out[0] != "return":
+            ctx.oblige(f"C18/{q}/no-exception", False, props=self.props, note=str(out[1]))
+            return out
+        d = out[1]
+        ok = isinstance(d, NestedIou)
+        ctx.oblige(f"C18/{q}/ensures:returns-the-nested-dictionary", z3.BoolVal(ok), props=self.props)
+        if ok:
+            for lbl, f in iou_dict_clauses(V, d, V.nfr - 1):
+                ctx.oblige(f"C18/{q}/ensures:{lbl}", f, props=self.props)
+        return out
+
+    def apply(self, I, args, kw):
+        ctx = I.ctx
+        V = args[0]
+        if not isinstance(V, SegVideo) or kw.get("multiseg", False) is not False:
+            raise Unsupported("_get_iou_dict arguments")
+        d = NestedIou(ctx)
+        for lbl, f in iou_dict_clauses(V, d, V.nfr - 1):
+            ctx.assume(f, "iou_dict")
+        return d
+
+
+class EdgesViewC(ModelObj):
+    def __init__(self, W):
+        self.W = W
+
+    def m_contains(self, I, e):
+        return Sym(self.W.E(to_z3(e[0], Int), to_z3(e[1], Int)))
+
+    def m_getitem(self, I, e):
+        return EdgeIouView(self.W, to_z3(e[0], Int), to_z3(e[1], Int))
+
+
+class EdgeIouView(ModelObj):
+    def __init__(self, W, a, b):
+        self.W, self.a, self.b = W, a, b
+
+    def m_setitem(self, I, k, v):
+        if k != "iou":
+            raise Unsupported("edge attribute")
+        W = self.W
+        old, a, b, ve = W.AeIou, self.a, self.b, to_z3(v, Val)
+        W.AeIou = W.ctx.fresh_fun("edge_iou", Int, Int, Val)
+        W.ctx.assume(forall([a_, b_], W.AeIou(a_, b_) == z3.If(AND(a_ == a, b_ == b), ve, old(a_, b_))))
+
+
+class CandGraph3(CandGraph):
+    def attr_edges(self, I):
+        return EdgesViewC(self.W)
+
+
+def iou_target(W, V, a, b):
+    return z3.If(OVc(W.fr(a), a, W.fr(a) + 1, b), IOc(W.fr(a), a, W.fr(a) + 1, b), VInt(0))
+
+
+def add_iou_clause(W, V, Ae0, done):
+    return forall([a_, b_], W.AeIou(a_, b_) == z3.If(AND(W.E(a_, b_), W.N(a_), W.N(b_), W.fr(b_) == W.fr(a_) + 1, done(a_, b_)), iou_target(W, V, a_, b_), Ae0(a_, b_)))
+
+
+class AddIouFrames(LoopSpec):
+    props = ("C18",)
+
+    def __init__(self, W, V):
+        self.W, self.V = W, V
+
+    def enter(self, I, fr, it):
+        self.Ae0 = self.W.AeIou
+
+    def havoc(self, I, fr, it, i, assigned):
+        for nm in ("frame", "next_nodes", "node_id", "next_id", "iou"):
+            fr.env.pop(nm, None)
+        self.W.AeIou = I.ctx.fresh_fun("edge_iou", Int, Int, Val)
+
+    def inv(self, I, fr, it, u):
+        W = self.W
+        return [("edges-leaving-processed-frames-carry-their-iou", add_iou_clause(W, self.V, self.Ae0, lambda a, b: it.pos(W.fr(a)) < u))]
+
+
+class AddIouNodes(LoopSpec):
+    props = ("C18",)
+
+    def __init__(self, W, V, outer):
+        self.W, self.V, self.outer = W, V, outer
+
+    def enter(self, I, fr, it):
+        self.Ae1 = self.W.AeIou
+        self.frame = to_z3(fr.env["frame"], Int)
+
+    def havoc(self, I, fr, it, i, assigned):
+        for nm in ("node_id", "next_id", "iou"):
+            fr.env.pop(nm, None)
+        self.W.AeIou = I.ctx.fresh_fun("edge_iou", Int, Int, Val)
+
+    def inv(self, I, fr, it, i):
+        W = self.W
+        return [("edges-of-the-first-i-nodes-of-the-frame", add_iou_clause(W, self.V, self.Ae1, lambda a, b: AND(W.fr(a) == self.frame, W.idx(a) < i)))]
+
+
+class AddIouNext(LoopSpec):
+    props = ("C18",)
+
+    def __init__(self, W, V):
+        self.W, self.V = W, V
+
+    def enter(self, I, fr, it):
+        self.Ae2 = self.W.AeIou
+        self.node = to_z3(fr.env["node_id"], Int)
+
+    def havoc(self, I, fr, it, i, assigned):
+        for nm in ("next_id", "iou"):
+            fr.env.pop(nm, None)
+        self.W.AeIou = I.ctx.fresh_fun("edge_iou", Int, Int, Val)
+
+    def inv(self, I, fr, it, j):
+        W = self.W
+        return [("edges-to-the-first-j-nodes-of-the-next-frame", add_iou_clause(W, self.V, self.Ae2, lambda a, b: AND(a == self.node, W.idx(b) < j)))]
+
+
+class AddIou(Contract):
+    qualname = AIO
+    props = ("C18",)
+    ext = {"model.sorted": sorted_keys, "tqdm.tqdm": lambda I, a, k: a[0]}
+
+    def run(self, I, cfg):
+        ctx = I.ctx
+        W = World(ctx)
+        V = SegVideo(ctx)
+        label_frame_axioms(ctx, V)
+        W.AeIou = ctx.fresh_fun("edge_iou", Int, Int, Val)
+        Ae0 = W.AeIou
+        # the candidate graph was built from this segmentation: node ids are labels of their frame; edges join nodes
+        ctx.assume(forall([a_], IMP(W.N(a_), AND(W.fr(a_) >= 0, W.fr(a_) < V.nfr, V.is_label(W.fr(a_), a_)))), "pre.nodes-are-labels-of-their-frame")
+        ctx.assume(forall([a_, b_], IMP(W.E(a_, b_), AND(W.N(a_), W.N(b_)))), "pre.edges-join-nodes")
+        g = CandGraph3(W)
+        E_entry = W.E
+        c = GetIouDict()
+        ctx.contracts[c.qualname] = c
+        outer = AddIouFrames(W, V)
+        ctx.loopspecs[(AIO, 0)] = outer
+        ctx.loopspecs[(AIO, 1)] = AddIouNodes(W, V, outer)
+        ctx.loopspecs[(AIO, 2)] = AddIouNext(W, V)
+        out = call_real(I, AIO, [g, V, FrameDict(W)], {})
+        q = "add_iou"
+        if out[0] != "return":
+            ctx.oblige(f"C18/{q}/no-exception", False, props=self.props, note=str(out[1]))
+            return out
+        ctx.oblige(f"C18/{q}/ensures:every-edge-between-consecutive-frames-carries-the-iou-of-its-two-masks(0-without-overlap)-nothing-else-changes",
+                   add_iou_clause(W, V, Ae0, lambda a, b: z3.BoolVal(True)), props=self.props)
+        ctx.oblige(f"C18/{q}/ensures:no-edge-added-or-removed", z3.BoolVal(W.E is E_entry), props=self.props)
+        return out
+
+
 def units():
     from pyvc.verify import Unit
     return [Unit(AddCandEdges(), {}), Unit(ComputeNodeFrameDict(), {}), Unit(NodesFromPointsList(), {}),
-            Unit(NodesFromSegmentation(), {}), Unit(NodesFromSegmentation(), {"scale": True})]
+            Unit(NodesFromSegmentation(), {}), Unit(NodesFromSegmentation(), {"scale": True}), Unit(GetIouDict(), {}), Unit(AddIou(), {})]
